@@ -263,11 +263,12 @@ class Flat:
                                                  rstr(fin(fr(c['inttol']))), c['round'] if c['round'] < 100 else 'none',
                                                  c['prec'] if c['prec'] < 100 else 'none', c['fail'], c['infeas'])
 
-    def check_ops(self):
+    def check_ops(self, code=0):
+        """the solve code is the scripted one (what the 'solver' reported), NOT the flag the checker received"""
         c = self.chk
         xs = [fin(fr(t)) for t in c['x']]
         ov = [fin(fr(t)) for t in c['obj']]
-        return 'check %d X %d %s O %d %s' % (c['known_infeas'], len(xs), ' '.join(map(rstr, xs)), len(ov), ' '.join(map(rstr, ov)))
+        return 'check %d X %d %s O %d %s' % (code, len(xs), ' '.join(map(rstr, xs)), len(ov), ' '.join(map(rstr, ov)))
 
     # ---- exact mathematical value of a defining expression (python side, independent of the Lean model)
     def math_value(self, c, x):
@@ -347,7 +348,7 @@ class Flat:
         best = min(cands, key=lambda it: (it['depth'], 0 if it['con'] is init else 1))
         return best['con']
 
-    def consistent(self, xorig, rng=None):
+    def consistent(self, xorig, rng=None, override=None):
         """extend values of the original variables by the exact values of all defining expressions (evaluated in
         dependency order); variables without a definition get their lower bound (or a random bound).
         None if the definitions are cyclic or not computable."""
@@ -363,7 +364,9 @@ class Flat:
             state[i] = 1
             v = self.vars[i]
             d = None if v['orig'] else self.best_def(i)
-            if v['orig']:
+            if override and i in override:
+                x[i] = F(override[i])        # the solver's claim; everything downstream is computed from it
+            elif v['orig']:
                 x[i] = F(xorig[i])
             elif d is None:
                 lb, ub = v['lb'], v['ub']
@@ -756,6 +759,18 @@ ACCEPT_SETS = [
 ]
 
 DY = [F(1, 2 ** k) for k in (4, 6, 8, 10, 12, 20)]
+# solver statuses: solved, uncertain, infeasible (the only class exempt from the check), unbounded with/without feasible
+# point, limit with/without feasible point, undecided inf/unb, failure
+SOLVE_CODES = [0, 50, 100, 199, 200, 201, 250, 299, 300, 320, 349, 350, 399, 400, 449, 450, 455, 469, 470, 499, 500, 600]
+
+
+def code_class(code):
+    for lo, hi, nm in ((0, 99, 'solved'), (100, 199, 'uncertain'), (200, 299, 'infeasible'), (300, 349, 'unbounded-feas'),
+                       (350, 399, 'unbounded-nofeas'), (400, 449, 'limit-feas'), (450, 469, 'limit-inf-unb'),
+                       (470, 499, 'limit-nofeas'), (500, 999, 'failure')):
+        if lo <= code <= hi:
+            return nm
+    return 'other'
 
 
 def fstr(q):
@@ -991,7 +1006,7 @@ class Runner:
                 spans.append(None)
                 continue
             try:
-                L = f.model_ops() + [f.opts_ops(), f.check_ops()]
+                L = f.model_ops() + [f.opts_ops(), f.check_ops(c.get('code', 0))]
             except Unsupported as u:
                 f.supported = False
                 f.why = str(u)
@@ -1154,6 +1169,44 @@ def gen_points(rng, m, xs_model, flat, opts):
             y[i] = y[i] + d
             return y
         add('aux-off', list(x0), mut=mut)
+    # solver-claimed 0/1 result of a reified comparison inconsistent with the point (everything depending on it
+    # recomputed from the claimed value): b=0 although the comparison holds / b=1 although it fails
+    conds = [it for it in flat.items if it['con'][0] == 'cond' and not it['unused'] and it['depth'] == 0
+             and flat.best_def(it['con'][1]) is it['con']]
+    def rand_orig(keep):
+        xo = []
+        for j in range(nv):
+            v = flat.vars[j]
+            if keep and rng.chance(1, 2):
+                xo.append(x0[j])
+            elif v['int']:
+                xo.append(F(rng.rint(int(v['lb']), int(v['ub']))))
+            else:
+                xo.append(F(rng.rint(int(F(v['lb']) * GRID), int(F(v['ub']) * GRID)), GRID))
+        return xo
+    for _ in range(min(4, len(conds) + 1) if conds else 0):
+        it = rng.choice(conds)
+        r = it['con'][1]
+        ctx = it['con'][2]
+        # the direction that the context forbids: negative context -> claim b=0 where the comparison holds,
+        # positive -> claim b=1 where it fails (mixed: either); sometimes the harmless direction
+        want = {'neg': F(1), 'pos': F(0)}.get(ctx, F(rng.below(2)))
+        if rng.chance(1, 5):
+            want = 1 - want
+        base = None
+        for tr in range(10):
+            xo = list(x0) if tr == 0 else rand_orig(tr < 5)
+            b = flat.consistent(xo + [F(0)] * (len(flat.vars) - nv), None)
+            if b is not None and b[r] == want:
+                base = b
+                break
+        if base is None:
+            continue
+        x = flat.consistent(xo + [F(0)] * (len(flat.vars) - nv), None, override={r: 1 - base[r]})
+        if x is None:
+            continue
+        pts.append({'family': 'aux-flip', 'xs': x, 'objv': [b_.val(x) for b_ in flat.objbodies], 'consistent': False,
+                    'objexact': True, 'flip': {'var': r, 'truth': base[r], 'ctx': ctx, 'name': it['name']}})
     # wrong / missing objective value
     if flat.objbodies:
         add('obj-off', list(x0), objmode='off')
@@ -1182,10 +1235,12 @@ def oracle(c):
     """expected 'report present?' from the NL-level model, or None when the oracle does not apply.
     returns dict(expect: bool, kind, detail) | None"""
     f = c['flat']
-    if f is None or f.chk is None or not c.get('consistent') or c.get('xs') is None:
+    if f is None or f.chk is None or c.get('xs') is None or not (c.get('consistent') or c.get('family') == 'aux-flip'):
         return None
     ch = f.chk
-    if ch['known_infeas'] and not ch['infeas']:
+    code = c.get('code', 0)
+    if 200 <= code <= 299 and not ch['infeas']:
+        # the only exemption: status 'infeasible' (IsProblemInfeasible) without sol:chk:infeas
         return {'expect': False, 'kind': 'skipped', 'detail': None}
     if ch['round'] < 100 or ch['prec'] < 100:
         return None
@@ -1193,6 +1248,8 @@ def oracle(c):
     real, ideal = mode & 31, (mode >> 5) & 31
     if not (real or ideal):
         return {'expect': False, 'kind': 'mode0', 'detail': None}
+    if c.get('family') == 'aux-flip':
+        return flip_oracle(c)
     m = c['m']
     if getattr(m, 'has_sos', False):
         return None                      # the NL-level evaluator knows nothing about SOS suffixes
@@ -1294,6 +1351,98 @@ def ctx_none_items(f):
     return [it['name'] for it in f.items if not it['unused'] and it['con'][0] in ('func', 'cond') and it['con'][2] == 'none']
 
 
+def flip_oracle(c):
+    """realistic pass, bits 1|2|16 only, relative tolerance 0: the solver's 0/1 value of ONE reified comparison (depth 0)
+    contradicts the point, every other expression value is exact given that claim.  Expected report from the documented
+    semantics of auxiliary values: variable bounds/integrality (bit 1); original algebraic rows; a comparison result b in
+    positive context promises 'b=1 => holds', in negative context 'b=0 => fails', in mixed context both (bit 2); the
+    amount is the distance of the body from the comparison's boundary.  None when not decidable with a margin."""
+    f = c['flat']
+    ch = f.chk
+    mode = ch['mode']
+    if mode & ~(1 | 2 | 16) or fr(ch['feastolrel']) != 0:
+        return None
+    feastol, inttol = fr(ch['feastol']), fr(ch['inttol'])
+    x = [fr(t) for t in ch['x']]
+    if any(v is None or isinstance(v, float) for v in x) or x != [F(v) for v in c['xs']]:
+        return None
+    if ctx_none_items(f) or orphaned_refs(f):
+        return None
+    fl = c['flip']
+    bad = []
+
+    def amount(a, what):
+        # returns False if undecidable
+        if a > feastol:
+            if a < F(1, 64):
+                return False
+            bad.append(what)
+        elif a > 0:
+            return False
+        return True
+    if mode & 1:
+        for i, v in enumerate(f.vars):
+            if v['lb'] != -INF and not amount(F(v['lb']) - x[i], 'lb ' + v['name']):
+                return None
+            if v['ub'] != INF and not amount(x[i] - F(v['ub']), 'ub ' + v['name']):
+                return None
+            if v['int']:
+                d = abs(x[i] - F(cround(float(x[i]))))
+                if d > inttol:
+                    bad.append('int ' + v['name'])
+    if mode & 2:
+        for it in f.items:
+            if it['unused'] or it['depth'] != 0:
+                continue
+            con = it['con']
+            k = con[0]
+            if k == 'alg':
+                a = con[1]
+                bd = a['body'].val(x)
+                if a['lo'] != -INF and not amount(F(a['lo']) - bd, 'row ' + it['name']):
+                    return None
+                if a['hi'] != INF and not amount(bd - F(a['hi']), 'row ' + it['name']):
+                    return None
+            elif k == 'cond':
+                if con[1] != fl['var']:
+                    continue
+                a = con[3]
+                bd = a['body'].val(x)
+                claimed = x[con[1]] >= F(1, 2)
+                kind = a['kind']
+                if kind in ('le', 'lt'):
+                    g = F(a['hi']) - bd
+                elif kind in ('ge', 'gt'):
+                    g = bd - F(a['lo'])
+                elif kind == 'eq':
+                    g = -abs(bd - F(a['lo']))
+                else:
+                    return None
+                if g == 0 and kind != 'le' and kind != 'ge':
+                    if kind != 'eq':
+                        return None              # strict comparison exactly on its boundary
+                holds = alg_valid(a, bd)
+                ctx = con[2]
+                if holds and not claimed and ctx in ('neg', 'mix'):
+                    if not amount(g, 'b=0 although %s holds (%s context)' % (it['name'], ctx)):
+                        return None
+                elif (not holds) and claimed and ctx in ('pos', 'mix'):
+                    if not amount(-g, 'b=1 although %s fails (%s context)' % (it['name'], ctx)):
+                        return None
+            elif k in ('func', 'adef'):
+                continue                         # exact given the claim
+            else:
+                return None
+    # cross-check with the NL model: a robustly violated point must not come out clean
+    try:
+        kind, _ = nl_verdict_margin(c['m'], model_point(c['m'], x), feastol, inttol)
+    except Exception:
+        kind = 'undetermined'
+    if kind == 'violated' and not bad and (mode & 3) == 3 and not getattr(c['m'], 'has_sos', False):
+        return {'expect': None, 'kind': 'flip-conflict', 'detail': 'NL model violated but every flat item is satisfied under the context semantics'}
+    return {'expect': bool(bad), 'kind': 'flip-violated' if bad else 'flip-clean', 'detail': bad[:6]}
+
+
 def int_sig(c, detail):
     """signature for an unreported integrality violation: does every violating variable round to a non-zero integer?"""
     xo = model_point(c['m'], c['xs'])
@@ -1314,7 +1463,7 @@ def proof_stage(ck):
     return ok, failing
 
 
-EXPECT_THEOREMS = 31
+EXPECT_THEOREMS = 33
 
 
 def run(ck):
@@ -1332,7 +1481,7 @@ def run(ck):
     stats = {'runs': 0, 'compared': 0, 'unsupported': 0, 'no_check': 0, 'outside_fragment': 0, 'oracle_applied': 0,
              'oracle_expect_report': 0, 'oracle_expect_clean': 0, 'reports_seen': 0, 'code150_seen': 0, 'skipped_seen': 0}
     hist = {'family': {}, 'profile': {}, 'mode_bits': {}, 'labels': {}, 'types': {}, 'accept': {}, 'oracle_kind': {}, 'gen': {},
-            'classes': {}, 'unsupported_why': {}}
+            'classes': {}, 'unsupported_why': {}, 'code_class_checked': {}, 'code_class_no_check': {}, 'flip': {}}
     corr_bad, oracle_bad = [], []
     distinct = set()
     cid = 0
@@ -1401,6 +1550,13 @@ def run(ck):
                     continue
                 for p in pts:
                     o = dict(opts)
+                    if p['family'] == 'aux-flip':
+                        o['mode'] = rng.choice([3, 3, 2, 19, 515 & 3])
+                        o['feastolrel'] = F(0)
+                        if o.get('feastol', F(1, 2 ** 20)) > F(1, 256):
+                            o['feastol'] = F(1, 1024)
+                        o.pop('round', None)
+                        o.pop('prec', None)
                     if o.get('round') is not None or o.get('prec') is not None:
                         if not dbl_round_ok(p['xs'], o.get('round'), o.get('prec')):
                             o.pop('round', None)
@@ -1414,9 +1570,7 @@ def run(ck):
                             else:
                                 o.pop('round', None)
                                 o.pop('prec', None)
-                    code = 0
-                    if rng.chance(1, 8):
-                        code = rng.choice([200, 210, 100, 300, 400])
+                    code = 0 if rng.chance(1, 2) else rng.choice(SOLVE_CODES)
                     c = {'id': cid, 'stub': lc['stub'], 'm': lc['m'], 'profile': lc['profile'], 'accept': lc['accept'],
                          'base_opts': lc['base_opts'], 'opts': o, 'code': code}
                     c.update(p)
@@ -1473,6 +1627,13 @@ def load_corpus(R):
     for xv in (F(7), F(3), F(5), F(19, 4)):
         for mode in (96, 3, 99, 515, 1023 - 12 - 384):
             case('corp_cond', m3, 'logic', [xv, F(1)], {'mode': mode, 'feastolrel': F(0)}, 'corpus-cond-ideal')
+    # 3b. solver status: the violating point (x + y = 8 + 1/8) and a feasible one under every status class
+    for code in SOLVE_CODES:
+        for inf in (False, True):
+            for pt in ([F(3) + F(1, 8), F(5)], [F(3), F(4)]):
+                case('corp_tol', m2, 'linear', pt, {'mode': 3, 'feastol': e, 'feastolrel': F(0), 'fail': True, 'infeas': inf},
+                     'corpus-status')
+                cases[-1]['code'] = code
     # 4. piecewise-linear term: <<0,2; -1,1,3>> x + y = 7 (left of the first stored point / between / right)
     m4 = nlgen.Model()
     x = m4.var(-10, 10, False, 'x'); y = m4.var(-100, 100, False, 'y')
@@ -1498,7 +1659,15 @@ def evaluate(ck, c, stats, hist, corr_bad, oracle_bad, distinct):
     bump('accept', (c['accept'] or 'default')[:40])
     if f is None:
         stats['no_check'] += 1
+        if c.get('xs') is not None:
+            bump('code_class_no_check', code_class(c.get('code', 0)))
         return
+    bump('code_class_checked', code_class(c.get('code', 0)))
+    # the flag the checker received must be exactly IsProblemInfeasible(status)
+    if c.get('xs') is not None and bool(f.chk['known_infeas']) != (200 <= c.get('code', 0) <= 299):
+        oracle_bad.append((c, {'expect': True, 'kind': 'infeas-flag',
+                               'detail': 'solve code %d, checker was told known_infeasible=%d' % (c.get('code', 0), f.chk['known_infeas'])},
+                           {'ret': None, 'text': None, 'code': c.get('sol_code')}))
     for t in f.types:
         bump('types', t)
     if not f.supported:
@@ -1539,6 +1708,14 @@ def evaluate(ck, c, stats, hist, corr_bad, oracle_bad, distinct):
         else:
             stats['format_boundary'] = stats.get('format_boundary', 0) + 1
     orc = oracle(c)
+    if orc is not None and orc.get('expect') is None:
+        stats['oracle_conflicts'] = stats.get('oracle_conflicts', 0) + 1
+        ck.notes.append('oracle conflict (not a C07 verdict): %s %s' % (orc['kind'], orc['detail']))
+        orc = None
+    if c.get('family') == 'aux-flip':
+        fl = c['flip']
+        bump('flip', '%s:truth=%s:%s:%s' % (fl['ctx'], fl['truth'], orc['kind'] if orc else 'no-verdict',
+                                          'only-witness' if orc and orc['expect'] and len(orc['detail']) == 1 and orc['detail'][0].startswith('b=') else '-'))
     if orc is not None:
         stats['oracle_applied'] += 1
         bump('oracle_kind', orc['kind'])
@@ -1577,6 +1754,10 @@ def finish(ck, proof_ok, failing, stats, hist, corr_bad, oracle_bad, distinct):
             what = ('integer variable(s) %s are fractional by more than sol:chk:inttol but the solution check reports nothing '
                     '(mode %d): Violation::Check is called with epsrel=INFINITY, so integrality is only reported when round(x)==0'
                     % ([(c['m'].vars[j]['name'], rstr(model_point(c['m'], c['xs'])[j])) for j, _ in orc['detail']], c['flat'].chk['mode']))
+        elif orc['kind'] == 'infeas-flag':
+            sig = 'infeas-flag:%s' % code_class(c.get('code', 0))
+            what = ('the solution checker was handed a wrong "known infeasible" flag (%s): only status 200..299 exempts a '
+                    'returned point from the check (unless sol:chk:infeas)' % orc['detail'])
         elif orc['kind'] == 'fail-code':
             sig = 'fail-code:%s' % ('missing-150' if orc['expect'] else 'spurious-150')
             what = 'sol:chk:fail: %s' % orc['detail']
